@@ -33,6 +33,8 @@ def check(run, repo, tier):
   c11.r1_who_may_emit(run, w, "C20-R1", with_adds=True, extras_rule="C20-R2")
   r3_sorted_rows(run, w)
   r4_prepare(run, w)
+  from ._extra import c20_adjustment_pairing
+  c20_adjustment_pairing(run, w, "C20-R5")
 
 
 def _super_calls(fn, meth):
